@@ -419,6 +419,7 @@ fn run_once(schema: &AnySchema, ts: &Arc<TypeSystem>, case: &SubCase, chooser: &
             let mut st = match &schema {
                 AnySchema::S1(s) => s.execute_stream(req),
                 AnySchema::Dyn(s) => s.execute_stream(req),
+                AnySchema::Gen(s) => s.execute_stream(req),
             };
             let mut out: Vec<(Response, usize)> = vec![];
             let mut ended = false;
@@ -1004,6 +1005,7 @@ fn streamed_nonsub(cx: &Ctx<'_>, r: &mut Rng) {
         let streamed: Vec<Response> = match &schema {
             AnySchema::S1(s) => vh_core::vsched::block_on(s.execute_stream(req_a).take(4).collect()),
             AnySchema::Dyn(s) => vh_core::vsched::block_on(s.execute_stream(req_a).take(4).collect()),
+            AnySchema::Gen(s) => vh_core::vsched::block_on(s.execute_stream(req_a).take(4).collect()),
         };
         (streamed, schema.execute(req_b))
     });
